@@ -27,6 +27,7 @@ static rc::Gen<Step> genStep(const std::string &focus)
 	if (focus == "C17") { wc = 60; wf = 12; }
 	if (focus == "C07") { wn = 16; wc = 40; }
 	if (focus == "C04") { wraw = 14; wh = 10; wf = 40; }
+	if (focus == "C06") { wr = 16; wf = 40; } // reloads (after Cache Reset), and reloads that fail
 	if (focus == "C14") { wf = 50; we = 14; }
 	auto kind = gen::weightedElement<int>({{wc, K_CORRECT}, {wr, K_CACHE_RESET}, {we, K_ERROR}, {wn, K_NOANSWER}, {wf, K_FAULTY}, {wv, K_V0}, {wh, K_HOSTILE}, {wraw, K_RAW}});
 	auto part1 = gen::tuple(kind, gen::weightedElement<int>({{12, 0}, {2, 1}, {1, 2}}), /* open_fails */
